@@ -79,6 +79,7 @@ type FEnc struct {
 	domDepth     map[*ssa.BasicBlock]int
 	epochN       int
 	epochPreds   map[int][]epochEdge
+	epochKeep    map[int]epochKeep
 	heapSorts    map[string]string
 	heapDeclared map[string]bool
 	notes        []string // abstractions applied (for evidence)
@@ -118,6 +119,12 @@ type FEnc struct {
 	rangeGhost   map[*ssa.Range]int // map iteration -> ghost cell holding the set of keys visited so far
 	mergeTarget  *State             // state being built at a join (for merge objects)
 	mergeSources []*State           // predecessor exit states, parallel to the values being merged
+}
+
+type epochKeep struct {
+	pred int
+	heap map[string]string
+	mod  map[string]bool
 }
 
 type epochEdge struct {
@@ -354,6 +361,15 @@ func (e *FEnc) epochHeap(name, sort string, epoch int) string {
 	}
 	e.heapDeclared[n] = true
 	e.consts = append(e.consts, fmt.Sprintf("(declare-const %s %s)", n, sort))
+	if k, ok := e.epochKeep[epoch]; ok && !k.mod[heapClass(name)] {
+		var pt string
+		if t, ok := k.heap[name]; ok {
+			pt = t
+		} else {
+			pt = e.epochHeap(name, sort, k.pred)
+		}
+		e.fact(eq(n, pt))
+	}
 	for _, pe := range e.epochPreds[epoch] {
 		var pt string
 		if t, ok := pe.heap[name]; ok {
@@ -374,6 +390,38 @@ func (e *FEnc) heapSet(st *State, name, sort, term string) {
 		term = n
 	}
 	st.heap[name] = term
+}
+
+// heapClass: "maps" (map contents), "elems" (slice/array elements), "fields" (struct fields), "ptrs" (other pointees)
+func heapClass(name string) string {
+	switch {
+	case strings.HasPrefix(name, "HMd_"), strings.HasPrefix(name, "HMv_"):
+		return "maps"
+	case strings.HasPrefix(name, "HE_"):
+		return "elems"
+	case strings.HasPrefix(name, "H_"):
+		return "fields"
+	}
+	return "ptrs"
+}
+
+// havocHeapOnly: the callee may change only the given heap classes; every other heap array is unchanged.
+func (e *FEnc) havocHeapOnly(st *State, classes []string) {
+	mod := map[string]bool{}
+	for _, c := range classes {
+		mod[c] = true
+	}
+	oldEpoch, oldHeap := st.epoch, st.heap
+	e.epochN++
+	st.epoch = e.epochN
+	st.heap = map[string]string{}
+	for n, t := range oldHeap {
+		if !mod[heapClass(n)] {
+			st.heap[n] = t
+		}
+	}
+	e.epochKeep[st.epoch] = epochKeep{pred: oldEpoch, heap: oldHeap, mod: mod}
+	st.pub = map[int]*Val{}
 }
 
 func (e *FEnc) havocHeap(st *State) {
